@@ -60,7 +60,7 @@ fn repo_seeds() -> Vec<(String, String)> {
     out
 }
 
-const INJECT: [&str; 40] = ["\u{85}", "\u{200e}", "\\\u{200e} ", "\\ ", "\\\u{85}\t", "*/", "%", "{", "}", "[", "]", "(", ")", "\"", "'", "\\", "/", "*", ":", ";", "|", "<", ">", ",", "!", "-", "%%", "/*", "//", "::", "é", "♠", "\0", "\r", "\n", " ", "99999999999999999999999", "%grmtools{", "%token", "0"];
+const INJECT: [&str; 48] = ["²", "٣", "３", "½", "Ⅷ", "1²", "\\é", "\\♠x", "\u{85}", "\u{200e}", "\\\u{200e} ", "\\ ", "\\\u{85}\t", "*/", "%", "{", "}", "[", "]", "(", ")", "\"", "'", "\\", "/", "*", ":", ";", "|", "<", ">", ",", "!", "-", "%%", "/*", "//", "::", "é", "♠", "\0", "\r", "\n", " ", "99999999999999999999999", "%grmtools{", "%token", "0"];
 
 fn span_ok(src: &str, sp: &Span) -> bool {
     sp.start() <= sp.end() && sp.end() <= src.len() && src.is_char_boundary(sp.start()) && src.is_char_boundary(sp.end())
